@@ -171,7 +171,7 @@ def run(tier, seed, jobs):
     from mc import progfam
     # hand-built family (mc/progfam.py): every program, every alternative of the overwriting mutation
     fam = [(progfam.family_configs(pipeline.LANGS, 'all' if tier == 'thorough' else 'mini'), ['first'], 1, 1,
-            {'chunk': 30, 'run_kw': {'deviate_stages': ('overwrite',)}})]
+            {'chunk': 6 if tier == 'quick' else 30, 'run_kw': {'deviate_stages': ('overwrite',)}})]
     for part in fam + [tuple(p_) + ({},) for p_ in plan(tier)]:
         configs, policies, bound, nslices, extra = part
         tot = explore.explore(configs, policies, bound, SPEC, {}, jobs, seed, nslices,
